@@ -160,9 +160,13 @@ class FaultFS:
                 raise SimCrash('killed before fs call %d (%s %s)' % (
                     self.steps, call, base))
             if kind == 'crash_after':
-                perform()
-                if post is not None:
-                    post()
+                try:
+                    perform()
+                except OSError:
+                    pass          # the call failed (e.g. ENOENT), then killed
+                else:
+                    if post is not None:
+                        post()
                 self._after(call, base)
                 self.kill()
                 raise SimCrash('killed after fs call %d (%s %s)' % (
